@@ -6,7 +6,7 @@ def Inv (loc : Loc) (s : State) : Prop :=
   ∀ w c, s.caches[w]? = some c → ∀ k v, (k, v) ∈ c.ents →
     sGet s.store k = some v ∧ workerOf loc s.caches.length k = some w
 
-theorem inv_init (loc : Loc) (lru : Bool) (cap workers : Nat) : Inv loc (State.init lru cap workers) := by
+theorem inv_init (loc : Loc) (lru sized : Bool) (cap workers : Nat) : Inv loc (State.init lru sized cap workers) := by
   intro w c hc k v hm
   simp only [State.init] at hc
   rw [List.getElem?_replicate] at hc
